@@ -283,6 +283,40 @@ def ob_select():
     return h
 
 
+def ob_suites():
+    """--suite / --no-suite with 0-2 selectors each (forms name, :suite, project:suite; the names are symbolic characters): a test is selected iff no exclusion
+    selector matches it and - when inclusions are given - SOME inclusion selector does; every selector counts, whatever came before it"""
+    def h():
+        tests = []
+        for name, proj, suites in (('t1', 'p', ['p:a']), ('t2', 'p', ['p:b']), ('t3', 'p', ['p:a', 'p:b']), ('t4', 'q', ['q:a']), ('t5', 'q', ['q'])):
+            t = FakeTest(name, suites); t.project_name = proj; tests.append(t)
+
+        def selector(tag):
+            form = choose(3, tag + 'form')
+            x = sym_str(1, tag + 'x', alphabet='abpq'); y = sym_str(1, tag + 'y', alphabet='abpq') if form == 2 else None
+            return (form, x, y), [x, ':' + x, None][form] if form != 2 else x + ':' + y
+
+        def ref_match(t, sel):
+            form, x, y = sel
+            for prjst in t.suite:
+                prj, st = prjst.split(':', 1) if ':' in prjst else (prjst, '')
+                if form == 0 and (decide(eq(x, prj)) or decide(eq(x, st))): return True
+                if form == 1 and decide(eq(x, st)): return True
+                if form == 2 and decide(eq(x, prj)) and decide(eq(y, st)): return True
+            return False
+        incl = [selector('i%d' % i) for i in range(choose(3, 'n_suite'))]
+        excl = [selector('e%d' % i) for i in range(choose(3, 'n_no_suite'))]
+        hh = object.__new__(M.TestHarness)
+        hh.tests = tests
+        hh.build_data = argparse.Namespace(project_name='p')
+        hh.options = argparse.Namespace(exclude=[], exclude_suites=[s for _, s in excl], include_suites=[s for _, s in incl], setup=None, args=[], slice=None)
+        got = hh.get_tests(errorfile=open(os.devnull, 'w'))
+        expect = [t for t in tests if not any(ref_match(t, s) for s, _ in excl) and (not incl or any(ref_match(t, s) for s, _ in incl))]
+        check(len(got) == len(expect) and all(a is b for a, b in zip(got, expect)), 'selected iff no --no-suite selector matches and (no --suite given or some --suite selector matches)')
+        cover('selected' if expect else 'nothing')
+    return h
+
+
 # ---------------------------------------------------------------- the time limit: computed by the real SingleTestRunner.__init__, enforced by the real TestSubprocess.wait
 def mk_test(timeout, is_parallel=True, should_fail=False):
     from mesonbuild.backend.backends import TestSerialisation, TestProtocol
@@ -431,6 +465,7 @@ def obligations(tier):
         out.append(Obligation('classify[%d]' % k, ob_classify(k), dict(results=k, returncode='any integer', expected_exitcode='None|0|any', should_fail='symbolic'),
                               labels=tuple(NAMES), max_paths=3000000))
     out.append(Obligation('select', ob_select(), dict(tests='p:a1 p:a2 q:a1 q:b1', patterns='1-3 of %d name patterns (overlapping ones included)' % len(PATTERNS)), labels=('selected', 'sliced'), optional_labels=('nothing',)))
+    out.append(Obligation('suites', ob_suites(), dict(tests='5 (suites p:a p:b p:a+p:b q:a q)', include_selectors='0-2', exclude_selectors='0-2', forms='name | :suite | project:suite, 1 symbolic char each over abpq'), labels=('selected', 'nothing'), max_paths=3000000))
     out.append(Obligation('doit-job-clamp', ob_doit(), dict(tests='1-3', num_processes='symbolic 1..6', repeat='symbolic 1..3'), labels=('done',)))
     out.append(Obligation('limit-computation', ob_limit_computation(), dict(test_timeout='absent | any integer', timeout_multiplier='absent | integer -3..12 (a float in the enforcement obligation)',
                                                                             interactive='symbolic', num_processes='1..4', declared_parallel='symbolic'), labels=('unlimited', 'limited')))
